@@ -8,7 +8,10 @@ CLAIMED = {
              "normalised, all six comparisons and the C heap comparison coincide with the rational order, from_float and "
              "subtraction are exact, infinity is absorbing; the same model definitions, run in binary64, are compared bit for "
              "bit with the real Time class on every run, and a Fraction oracle evaluates each clause of the property on the "
-             "implementation's outputs.",
+             "implementation's outputs. Times are values: register sessions over real Time objects (in-place update, results of + and "
+             "from_float, the module-level inf) run against the value model (frame theorems update_frame/put_frame), so state cached "
+             "inside an object or shared between objects is a disagreement; rounding-abstract reading for every FloatModel with a proved "
+             "binary64 instance (C14Float).",
         note="Theorems are about the model over Q (one rounding of r+d is what the float reading adds; the oracle measures it "
              "exactly with Fractions on the implementation). Trusted: Lean kernel, propext/Classical.choice/Quot.sound, the "
              "correspondence harness, Lean's native Float for + - * / floor, the model's exact integer fmod (self-checked "
@@ -163,7 +166,14 @@ CLAIMED = {
              "committed interaction/cell-veto event is still on its trajectory, for every run; clause (h) follows from the decidable "
              "WiringSound predicate, which is proved by decide for each of the 19 shipped .ini (generated from the current tree). "
              "Run level: oracle on recorded real runs compares, at each interaction commit, the in-state as extracted when the candidate "
-             "was computed with the global state just before the commit (velocity identical, position on the same straight line).",
+             "was computed with the global state just before the commit (velocity identical, position on the same straight line). "
+             "Composition (JF/Props/MediatorLoop.lean): the loop of SingleProcessMediator.run as one machine (activator model x scheduler "
+             "instance x preceding handler) with theorems for all legs of all runs: the scheduler's live events are exactly the running "
+             "handlers' candidates, the committed handler is running and minimal, a trashed handler is never committed unless handed out "
+             "again (C08's second sentence end to end, composed with stale_handlers_are_trashed), commit times sorted, list and heap loops "
+             "refine the spec loop; every recorded leg of every single-process run (incl. dumped-and-resumed histories) is replayed in the "
+             "composed model and the cross-invariant 'live events of the real scheduler = candidates of the real activator's running "
+             "handlers' is evaluated on the implementation.",
         note="Footprint tables (which handler class may change motion/identity/cell) are hypotheses of the link theorem, tied to the code "
              "only by the run-level oracle and the activator replay. Trusted: translator .ini -> Lean data (self-checked against the real "
              "factory-built activator every run).",
@@ -177,8 +187,14 @@ CLAIMED = {
              "reachable activation states with footprint tables, proved by decide for all 19 shipped .ini regenerated from the tree; "
              "link theorem WiringSound + FootprintsSound => StepOK. Correspondence: translator vs real factory-built activator; every "
              "recorded leg of real runs replayed in the model (created handlers, order, running lists, flags, trash order); real "
-             "TagActivator with stub taggers on random wirings. Oracle: pending vs fresh yield after every commit of real runs.",
-        note="FootprintsSound is a hypothesis (tables written by hand, validated on runs). Pool sizes (clause i) are not derived: "
+             "TagActivator with stub taggers on random wirings. Oracle: pending vs fresh yield after every commit of real runs. "
+             "FootprintsSound is PROVED (JF/Props/Footprints.lean: footprintsSound_concrete, fresh_concrete, clause_h_concrete) for the "
+             "concrete world of point masses with one cell-occupancy system (kinematic chain machine + occupancy update + cell taggers; "
+             "the four shipped coulomb_atoms wirings by decide), every recorded commit of such runs is checked to be an instance of that "
+             "world's transition relation (harness/fpcorr.py).",
+        note="FootprintsSound is proved for the coulomb_atoms family under the premise that a sampling/dumping/end-of-run commit finds the "
+             "active unit in its recorded cell (C11's history premise; measured on every observed commit) and stays a hypothesis (tables "
+             "written by hand, validated on runs) for composite-object configurations. Pool sizes (clause i) are not derived: "
              "exhaustion is an explicit error outcome in model and code and is reported by the oracle.",
         technique="Lean 4 proof over a hand-written activator model + generated decidable obligations per .ini + trace replay + run-level oracle",
         ref="§5 C09/C08, §4"),
@@ -194,8 +210,10 @@ CLAIMED = {
              "an active unit) is checked after every leg of every shipped cell configuration; when it fails, long runs of that "
              "configuration are searched for an active unit that really leaves its recorded cell without a cell-boundary event.",
         note="The premise 'the active unit leaves its recorded cell only by a cell-boundary event' is a hypothesis of reach_inv (it needs "
-             "the scheduler/system model) and is measured by the run-level oracle; negative-direction boundary theorem is _partial "
-             "(one-float sliver between own cell_min and the neighbour's cell_max in exact arithmetic).",
+             "the scheduler/system model) and is measured by the run-level oracle; it is derived from the leg loop + a pending cell-boundary "
+             "candidate for both directions of motion (SystemLinks), in the negative direction for representable coordinates under the "
+             "adjacency of the recorded extents (no scalar between the neighbour's cell_max and the cell's lower edge: C16 part D, checked "
+             "on the real cell systems).",
         technique="Lean 4 proof (invariant by induction) over a hand-written model + differential correspondence + run-level oracle",
         ref="§5 C11"),
     "C16": dict(
@@ -233,14 +251,16 @@ CLAIMED = {
         text="Lean 4 theorems over R: 'accumulated uphill energy' is the positive variation uphill f 0 d; inverse power (repulsive/attractive): "
              "a returned finite d is >= 0 and uphill = budget, infinite iff the total climb is below (<= / <, as the code compares) the "
              "budget, totality of sqrt/denominators; hard sphere: least root of the contact equation, scaling with speed; hard dipole; the "
-             "C Coulomb-bound routine with whole-box laps (floor/fmod split exact, all six remainder branches invert the periodic "
-             "minimum-image energy); the Mexican-hat case tree generic in the radial potential, instantiated for Lennard-Jones and even "
+             "C Coulomb-bound routine with whole-box laps (split into laps and remainder exact, all six remainder branches invert the periodic "
+             "minimum-image energy; cb_code_inverts for the routine as repaired: fmod first, trips = round((dE - remainder)/c), "
+             "sqrt(non_negative(.))); the Mexican-hat case tree generic in the radial potential, instantiated for Lennard-Jones and even "
              "power; cell bound. Correspondence: native-Float model (CPython pow/sum semantics, exceptions as outcomes) vs real classes and "
              "freshly compiled C, by outcome class and 1e-9; oracle independent of the code's formulas: exact positive variation from the "
              "break points of an independently written energy, totality/sign down to denormal budgets, exact rational contact equations.",
-        note="Binary64 totality is explored, not proved (theorems are over R; pow/sqrt are libm). Ten known findings: arithmetic failures "
-             "(ZeroDivisionError head-on, ValueError/TypeError/nan within rounding of a turning point) and two wrong values (swallowed nested "
-             "ValueError in the Mexican-hat tree; floor/fmod disagreement in the C routine).",
+        note="Binary64 totality is explored, not proved (theorems are over R; pow/sqrt are libm). Eight known findings in the Python potentials: arithmetic "
+             "failures (ZeroDivisionError head-on, ValueError/TypeError within rounding of a turning point) and one wrong value (swallowed "
+             "nested ValueError in the Mexican-hat tree). The two findings about the C routine (floor/fmod disagreement: one box length too "
+             "long; nan) were repaired in /repo (fix 1b03a38, 22b464f).",
         technique="Lean 4 proof (real analysis) over a hand-written model + tolerance-based differential correspondence + break-point oracle",
         ref="§5 C02"),
     "C12": dict(
